@@ -35,3 +35,25 @@ with open(os.path.join(out, 'uid_consts.tsv'), 'w') as f:
     for k, v in uconsts.items():
         f.write(f'{k}\t{v}\n')
 print(f'dict entries={len(rows)} consts={len(consts)} uid consts={len(uconsts)}')
+
+# --- additions for C15 (new files; the three outputs above keep their format) ---
+# docs.tsv: the doc comment printed above every tag constant ("/// Alias (gggg,eeee) VR VM SOURCE"):
+# an independent rendering of the published table: const_name, alias, tag pattern text, VR text
+docs = re.findall(r'^/// (\S+) \(([^)]*)\) (\S+) (\S+) (\S+)\n(?:#\[[^\n]*\]\n)*pub const (\w+):', src, re.M)
+with open(os.path.join(out, 'docs.tsv'), 'w') as f:
+    for alias, pat, vr, vm, source, name in docs:
+        f.write(f'{name}\t{alias}\t{pat}\t{vr}\t{vm}\n')
+# sop_classes.tsv: the SOP_CLASSES entry table of uids.rs: uid, name, alias, type, retired
+m = re.search(r'pub\(crate\) const SOP_CLASSES: &\[E\] = &\[(.*?)\n\];', usrc, re.S)
+sop = re.findall(r'E::new\("([^"]*)", "((?:[^"\\]|\\.)*)", "([^"]*)", (\w+), (true|false)\)', m.group(1)) if m else []
+n_sop = len(re.findall(r'E::new\(', m.group(1))) if m else 0
+assert n_sop == len(sop), (n_sop, len(sop))
+with open(os.path.join(out, 'sop_classes.tsv'), 'w') as f:
+    for uid, name, alias, ty, retired in sop:
+        f.write(f'{uid}\t{name}\t{alias}\t{ty}\t{retired}\n')
+# uid_docs.tsv: doc comment of every UID constant ("/// Type: Name"): const_name, uid, type text, name text
+udocs = re.findall(r'^/// ([^:\n]+): ([^\n]*)\n(?:#\[[^\n]*\]\n)*pub const (\w+): &str = "([^"]*)";', usrc, re.M)
+with open(os.path.join(out, 'uid_docs.tsv'), 'w') as f:
+    for ty, name, cname, uid in udocs:
+        f.write(f'{cname}\t{uid}\t{ty}\t{name}\n')
+print(f'docs={len(docs)} sop classes={len(sop)} uid docs={len(udocs)}')
